@@ -153,10 +153,12 @@ impl Bitstr {
         (self.range.end - self.range.start) % 8 == 0
     }
 
+    // positions are counted from the first bit of the value, like read/peek/split_at
     pub fn seek(&self, pos: usize) -> Option<Bitstr> {
-        if self.range.start <= pos && pos <= self.range.end {
+        let start = self.range.start.checked_add(pos)?;
+        if start <= self.range.end {
             let mut s = self.clone();
-            s.range.start = pos;
+            s.range.start = start;
             Some(s)
         } else {
             None
@@ -186,9 +188,11 @@ impl Bitstr {
     }
 
     pub fn substr(&self, start: usize, end: usize) -> Option<Bitstr> {
-        if start <= end && self.range.start <= start && end <= self.range.end {
+        let first = self.range.start.checked_add(start)?;
+        let last = self.range.start.checked_add(end)?;
+        if first <= last && last <= self.range.end {
             let mut s = self.clone();
-            s.range = start..end;
+            s.range = first..last;
             Some(s)
         } else {
             None
